@@ -135,115 +135,182 @@ theorem optional_only_popped (c : Cfg) (hc : c.WF = true) (key : Req → Cost) (
 
 /-! ## the evaluation loop -/
 
-theorem evalLoop_accept (rw ft : Bool) (fals : Nat → Bool) :
-    ∀ (l : List Req) (ev : List (Nat × Bool)), evalLoop rw ft fals l = (ev, .accept) →
-      ∀ r ∈ l, r.active = true ∧ fals r.id ≠ rw
+/-- with the `except RejectionException as e: return e` handler, an accepted sample had every requirement of the
+    evaluation order evaluated to completion, and none of them falsified -/
+theorem evalLoop_accept (rw ft : Bool) (fals : Nat → Option Bool) :
+    ∀ (l : List Req) (ev : List (Nat × Bool)), evalLoop rw ft true fals l = (ev, .accept) →
+      ∀ r ∈ l, r.active = true ∧ ∃ f, fals r.id = some f ∧ f ≠ rw
   | [], _, _, r, hr => by simp at hr
   | a :: l, ev, h, r, hr => by
     unfold evalLoop at h
     by_cases ha : a.active = true
-    · simp only [ha, Bool.not_true] at h
-      by_cases hf : (fals a.id == rw) = true
-      · simp [hf] at h
-      · simp only [hf] at h
-        generalize hrec : evalLoop rw ft fals l = res at h
-        obtain ⟨ev', out'⟩ := res
-        simp only [Bool.false_eq_true, if_false, Prod.mk.injEq] at h
-        obtain ⟨_, hout⟩ := h
-        subst hout
-        rcases List.mem_cons.mp hr with rfl | hr'
-        · exact ⟨ha, by simpa using hf⟩
-        · exact evalLoop_accept rw ft fals l ev' hrec r hr'
+    · simp only [ha, Bool.not_true, Bool.false_eq_true, if_false] at h
+      cases hfa : fals a.id with
+      | none => simp [hfa, onRaise] at h
+      | some f =>
+        simp only [hfa] at h
+        by_cases hf : (f == rw) = true
+        · simp [hf] at h
+        · simp only [hf] at h
+          generalize hrec : evalLoop rw ft true fals l = res at h
+          obtain ⟨ev', out'⟩ := res
+          simp only [Bool.false_eq_true, if_false, Prod.mk.injEq] at h
+          obtain ⟨_, hout⟩ := h
+          subst hout
+          rcases List.mem_cons.mp hr with rfl | hr'
+          · exact ⟨ha, f, hfa, by simpa using hf⟩
+          · exact evalLoop_accept rw ft fals l ev' hrec r hr'
     · simp [ha] at h
 
-theorem evalLoop_reject (rw : Bool) (fals : Nat → Bool) :
-    ∀ (l : List Req) (ev : List (Nat × Bool)) (id : Nat), evalLoop rw true fals l = (ev, .reject id) →
-      ∃ r ∈ l, r.id = id ∧ r.active = true ∧ fals r.id = rw
+theorem evalLoop_reject (rw ct : Bool) (fals : Nat → Option Bool) :
+    ∀ (l : List Req) (ev : List (Nat × Bool)) (id : Nat), evalLoop rw true ct fals l = (ev, .reject id) →
+      ∃ r ∈ l, r.id = id ∧ r.active = true ∧ fals r.id = some rw
   | [], _, _, h => by simp [evalLoop] at h
   | a :: l, ev, id, h => by
     unfold evalLoop at h
     by_cases ha : a.active = true
-    · simp only [ha, Bool.not_true] at h
-      by_cases hf : (fals a.id == rw) = true
-      · simp only [hf, Bool.false_eq_true, if_false, if_true, Prod.mk.injEq, Outcome.reject.injEq] at h
-        exact ⟨a, List.mem_cons_self, h.2, ha, by simpa using hf⟩
-      · simp only [hf] at h
-        generalize hrec : evalLoop rw true fals l = res at h
-        obtain ⟨ev', out'⟩ := res
-        simp only [Bool.false_eq_true, if_false, Prod.mk.injEq] at h
-        obtain ⟨_, hout⟩ := h
-        subst hout
-        obtain ⟨r, hr, h1, h2, h3⟩ := evalLoop_reject rw fals l ev' id hrec
-        exact ⟨r, List.mem_cons_of_mem _ hr, h1, h2, h3⟩
+    · simp only [ha, Bool.not_true, Bool.false_eq_true, if_false] at h
+      cases hfa : fals a.id with
+      | none =>
+        simp only [hfa, onRaise] at h
+        cases ct <;> simp at h
+      | some f =>
+        simp only [hfa] at h
+        by_cases hf : (f == rw) = true
+        · simp only [hf, if_true, Prod.mk.injEq, Outcome.reject.injEq] at h
+          exact ⟨a, List.mem_cons_self, h.2, ha, by rw [hfa]; simpa using hf⟩
+        · simp only [hf] at h
+          generalize hrec : evalLoop rw true ct fals l = res at h
+          obtain ⟨ev', out'⟩ := res
+          simp only [Bool.false_eq_true, if_false, Prod.mk.injEq] at h
+          obtain ⟨_, hout⟩ := h
+          subst hout
+          obtain ⟨r, hr, h1, h2, h3⟩ := evalLoop_reject rw ct fals l ev' id hrec
+          exact ⟨r, List.mem_cons_of_mem _ hr, h1, h2, h3⟩
     · simp [ha] at h
 
-theorem evalLoop_no_crash (rw ft : Bool) (fals : Nat → Bool) :
-    ∀ (l : List Req), (∀ r ∈ l, r.active = true) → (evalLoop rw ft fals l).2 ≠ .crash
+/-- a rejection "by exception" names an active requirement whose evaluation raised -/
+theorem evalLoop_rejectExc (rw ct : Bool) (fals : Nat → Option Bool) :
+    ∀ (l : List Req) (ev : List (Nat × Bool)) (id : Nat), evalLoop rw true ct fals l = (ev, .rejectExc id) →
+      ∃ r ∈ l, r.id = id ∧ r.active = true ∧ fals r.id = none
+  | [], _, _, h => by simp [evalLoop] at h
+  | a :: l, ev, id, h => by
+    unfold evalLoop at h
+    by_cases ha : a.active = true
+    · simp only [ha, Bool.not_true, Bool.false_eq_true, if_false] at h
+      cases hfa : fals a.id with
+      | none =>
+        simp only [hfa, onRaise] at h
+        cases ct
+        · simp at h
+        · simp only [if_true, Prod.mk.injEq, Outcome.rejectExc.injEq] at h
+          exact ⟨a, List.mem_cons_self, h.2, ha, hfa⟩
+      | some f =>
+        simp only [hfa] at h
+        by_cases hf : (f == rw) = true
+        · simp [hf] at h
+        · simp only [hf] at h
+          generalize hrec : evalLoop rw true ct fals l = res at h
+          obtain ⟨ev', out'⟩ := res
+          simp only [Bool.false_eq_true, if_false, Prod.mk.injEq] at h
+          obtain ⟨_, hout⟩ := h
+          subst hout
+          obtain ⟨r, hr, h1, h2, h3⟩ := evalLoop_rejectExc rw ct fals l ev' id hrec
+          exact ⟨r, List.mem_cons_of_mem _ hr, h1, h2, h3⟩
+    · simp [ha] at h
+
+theorem evalLoop_no_crash (rw ft ct : Bool) (fals : Nat → Option Bool) :
+    ∀ (l : List Req), (∀ r ∈ l, r.active = true) → (evalLoop rw ft ct fals l).2 ≠ .crash
   | [], _ => by unfold evalLoop; split <;> simp
   | a :: l, hall => by
     have ha : a.active = true := hall a List.mem_cons_self
     unfold evalLoop
     simp only [ha, Bool.not_true, Bool.false_eq_true, if_false]
-    by_cases hf : (fals a.id == rw) = true
-    · simp [hf]
-    · simp only [hf, Bool.false_eq_true, if_false]
-      exact evalLoop_no_crash rw ft fals l (fun r hr => hall r (List.mem_cons_of_mem _ hr))
+    cases hfa : fals a.id with
+    | none => simp only [onRaise]; cases ct <;> simp
+    | some f =>
+      simp only
+      by_cases hf : (f == rw) = true
+      · simp [hf]
+      · simp only [hf, Bool.false_eq_true, if_false]
+        exact evalLoop_no_crash rw ft ct fals l (fun r hr => hall r (List.mem_cons_of_mem _ hr))
 
 /-- the evaluated ids are a prefix of the order, each evaluated exactly where it stands -/
-theorem evalLoop_prefix (rw ft : Bool) (fals : Nat → Bool) :
-    ∀ (l : List Req), ((evalLoop rw ft fals l).1.map Prod.fst) <+: (l.map (·.id))
+theorem evalLoop_prefix (rw ft ct : Bool) (fals : Nat → Option Bool) :
+    ∀ (l : List Req), ((evalLoop rw ft ct fals l).1.map Prod.fst) <+: (l.map (·.id))
   | [] => by unfold evalLoop; simp
   | a :: l => by
     unfold evalLoop
     by_cases ha : a.active = true
     · simp only [ha, Bool.not_true, Bool.false_eq_true, if_false]
-      by_cases hf : (fals a.id == rw) = true
-      · simp only [hf, if_true, List.map_cons, List.map_nil]
-        exact ⟨l.map (·.id), by simp⟩
-      · simp only [hf, Bool.false_eq_true, if_false, List.map_cons]
-        obtain ⟨t, ht⟩ := evalLoop_prefix rw ft fals l
-        exact ⟨t, by simp [← ht]⟩
+      cases hfa : fals a.id with
+      | none => simp
+      | some f =>
+        simp only
+        by_cases hf : (f == rw) = true
+        · simp only [hf, if_true, List.map_cons, List.map_nil]
+          exact ⟨l.map (·.id), by simp⟩
+        · simp only [hf, Bool.false_eq_true, if_false, List.map_cons]
+          obtain ⟨t, ht⟩ := evalLoop_prefix rw ft ct fals l
+          exact ⟨t, by simp [← ht]⟩
     · simp [ha]
 
 /-! ## WeightedAcceptanceChecker -/
 
 /-- **accept_sound** (weighted checker): if the check returns `None`, every active non-optional
-    requirement is not falsified by the sample — for every key function (every permutation the running
-    time / acceptance statistics can produce), every requirement list, and whether or not trailing
-    optional requirements were dropped. -/
+    requirement was evaluated to completion and is not falsified by the sample — for every key function
+    (every permutation the running time / acceptance statistics can produce), every requirement list, and
+    whether or not trailing optional requirements were dropped. -/
 theorem weighted_accept_sound (c : Cfg) (hc : c.WF = true) (key : Req → Cost) (reqs : List Req)
-    (fals : Nat → Bool) (ev : List (Nat × Bool))
+    (fals : Nat → Option Bool) (ev : List (Nat × Bool))
     (h : weightedDecide c key reqs fals = (ev, .accept)) :
-    ∀ r ∈ reqs, r.active = true → r.optional = false → fals r.id = false := by
+    ∀ r ∈ reqs, r.active = true → r.optional = false → fals r.id = some false := by
   intro r hr hact hopt
   have hrw : c.wRejectWhen = true := (wf_parts c hc).2.2.1
+  have hct : c.catchRejects = true := (wf_parts c hc).2.2.2.2.2.2.2.2
   unfold weightedDecide at h
+  rw [hct] at h
   have hall := evalLoop_accept _ _ _ _ _ h
+  have fin : ∀ x : Req, (x.active = true ∧ ∃ f, fals x.id = some f ∧ f ≠ c.wRejectWhen) → fals x.id = some false := by
+    intro x hx
+    obtain ⟨_, f, hf, hne⟩ := hx
+    rw [hrw] at hne
+    rw [hf]; cases f <;> simp_all
   by_cases hs : c.wLoopSorted = true
   · simp only [hs, if_true] at hall
     by_cases hin : r ∈ sortedRequirements c key reqs
-    · have := (hall r hin).2
-      rw [hrw] at this
-      simpa using this
+    · exact fin r (hall r hin)
     · have := optional_only_popped c hc key reqs hr hact hin
       rw [hopt] at this; exact absurd this (by simp)
   · simp only [hs] at hall
-    have := (hall r hr).2
-    rw [hrw] at this
-    simpa using this
+    exact fin r (hall r hr)
 
 /-- **reject_sound**: a rejection names an active requirement of the list that the sample falsifies
     (no sample is rejected without cause) -/
 theorem weighted_reject_sound (c : Cfg) (hc : c.WF = true) (key : Req → Cost) (reqs : List Req)
-    (fals : Nat → Bool) (ev : List (Nat × Bool)) (id : Nat)
+    (fals : Nat → Option Bool) (ev : List (Nat × Bool)) (id : Nat)
     (h : weightedDecide c key reqs fals = (ev, .reject id)) :
-    ∃ r ∈ reqs, r.id = id ∧ r.active = true ∧ fals r.id = true := by
+    ∃ r ∈ reqs, r.id = id ∧ r.active = true ∧ fals r.id = some true := by
   have hrw : c.wRejectWhen = true := (wf_parts c hc).2.2.1
   have hft : c.wFallthroughAccepts = true := (wf_parts c hc).2.2.2.1
   unfold weightedDecide at h
   rw [hft] at h
-  obtain ⟨r, hr, h1, h2, h3⟩ := evalLoop_reject _ _ _ _ _ h
+  obtain ⟨r, hr, h1, h2, h3⟩ := evalLoop_reject _ _ _ _ _ _ h
   rw [hrw] at h3
+  refine ⟨r, ?_, h1, h2, h3⟩
+  by_cases hs : c.wLoopSorted = true
+  · simp only [hs, if_true] at hr; exact (sorted_subset c key reqs hr).1
+  · simp only [hs] at hr; exact hr
+
+/-- …and a rejection caused by a RejectionException names an active requirement whose evaluation raised it -/
+theorem weighted_rejectExc_sound (c : Cfg) (hc : c.WF = true) (key : Req → Cost) (reqs : List Req)
+    (fals : Nat → Option Bool) (ev : List (Nat × Bool)) (id : Nat)
+    (h : weightedDecide c key reqs fals = (ev, .rejectExc id)) :
+    ∃ r ∈ reqs, r.id = id ∧ r.active = true ∧ fals r.id = none := by
+  have hft : c.wFallthroughAccepts = true := (wf_parts c hc).2.2.2.1
+  unfold weightedDecide at h
+  rw [hft] at h
+  obtain ⟨r, hr, h1, h2, h3⟩ := evalLoop_rejectExc _ _ _ _ _ _ h
   refine ⟨r, ?_, h1, h2, h3⟩
   by_cases hs : c.wLoopSorted = true
   · simp only [hs, if_true] at hr; exact (sorted_subset c key reqs hr).1
@@ -251,7 +318,7 @@ theorem weighted_reject_sound (c : Cfg) (hc : c.WF = true) (key : Req → Cost) 
 
 /-- the weighted checker never evaluates an inactive requirement (no AssertionError from `falsifiedBy`) -/
 theorem weighted_no_crash (c : Cfg) (hc : c.WF = true) (hs : c.wLoopSorted = true) (key : Req → Cost)
-    (reqs : List Req) (fals : Nat → Bool) : (weightedDecide c key reqs fals).2 ≠ .crash := by
+    (reqs : List Req) (fals : Nat → Option Bool) : (weightedDecide c key reqs fals).2 ≠ .crash := by
   have hf : c.wFilter = .active := (wf_parts c hc).1
   unfold weightedDecide
   simp only [hs, if_true]
@@ -262,7 +329,7 @@ theorem weighted_no_crash (c : Cfg) (hc : c.WF = true) (hs : c.wLoopSorted = tru
 
 /-- the statistics only influence *which* requirements are evaluated before the verdict, never the
     verdict "accept": the state-threading call agrees with the pure decision -/
-theorem weightedCheck_outcome (c : Cfg) (B : Nat) (st : State) (reqs : List Req) (fals : Nat → Bool)
+theorem weightedCheck_outcome (c : Cfg) (B : Nat) (st : State) (reqs : List Req) (fals : Nat → Option Bool)
     (times : List Rat) :
     (weightedCheck c B st reqs fals times).2 = weightedDecide c (st.key B) reqs fals := by
   unfold weightedCheck
@@ -272,113 +339,128 @@ theorem weightedCheck_outcome (c : Cfg) (B : Nat) (st : State) (reqs : List Req)
 
 /-! ## BasicChecker -/
 
-theorem basicLoop_accept (c : Cfg) (hg : c.bGuardActive = true) (fals : Nat → Bool) :
+theorem basicLoop_accept (c : Cfg) (hg : c.bGuardActive = true) (hct : c.catchRejects = true)
+    (fals : Nat → Option Bool) :
     ∀ (l : List Req) (ev : List (Nat × Bool)), basicLoop c fals l = (ev, .accept) →
-      ∀ r ∈ l, r.active = true → fals r.id ≠ c.bRejectWhen
+      ∀ r ∈ l, r.active = true → ∃ f, fals r.id = some f ∧ f ≠ c.bRejectWhen
   | [], _, _, r, hr, _ => by simp at hr
   | a :: l, ev, h, r, hr, hact => by
     unfold basicLoop at h
     by_cases ha : a.active = true
     · simp only [hg, ha, Bool.not_true, Bool.and_false, Bool.false_eq_true, if_false] at h
-      by_cases hf : (fals a.id == c.bRejectWhen) = true
-      · simp [hf] at h
-      · simp only [hf] at h
-        generalize hrec : basicLoop c fals l = res at h
-        obtain ⟨ev', out'⟩ := res
-        simp only [Bool.false_eq_true, if_false, Prod.mk.injEq] at h
-        obtain ⟨_, hout⟩ := h
-        subst hout
-        rcases List.mem_cons.mp hr with rfl | hr'
-        · simpa using hf
-        · exact basicLoop_accept c hg fals l ev' hrec r hr' hact
+      cases hfa : fals a.id with
+      | none => simp [hfa, onRaise, hct] at h
+      | some f =>
+        simp only [hfa] at h
+        by_cases hf : (f == c.bRejectWhen) = true
+        · simp [hf] at h
+        · simp only [hf] at h
+          generalize hrec : basicLoop c fals l = res at h
+          obtain ⟨ev', out'⟩ := res
+          simp only [Bool.false_eq_true, if_false, Prod.mk.injEq] at h
+          obtain ⟨_, hout⟩ := h
+          subst hout
+          rcases List.mem_cons.mp hr with rfl | hr'
+          · exact ⟨f, hfa, by simpa using hf⟩
+          · exact basicLoop_accept c hg hct fals l ev' hrec r hr' hact
     · have ha' : a.active = false := by simpa using ha
       simp only [hg, ha', Bool.not_false, Bool.and_true, if_true] at h
       rcases List.mem_cons.mp hr with rfl | hr'
       · rw [ha'] at hact; exact absurd hact (by simp)
-      · exact basicLoop_accept c hg fals l ev h r hr' hact
+      · exact basicLoop_accept c hg hct fals l ev h r hr' hact
+
+/-- with the `req.active and …` guard the basic checker never evaluates an inactive requirement -/
+theorem basic_no_crash (c : Cfg) (hg : c.bGuardActive = true) (fals : Nat → Option Bool) :
+    ∀ (l : List Req), (basicLoop c fals l).2 ≠ .crash
+  | [] => by unfold basicLoop; split <;> simp
+  | a :: l => by
+    unfold basicLoop
+    by_cases ha : a.active = true
+    · simp only [hg, ha, Bool.not_true, Bool.and_false, Bool.false_eq_true, if_false]
+      cases hfa : fals a.id with
+      | none => simp only [onRaise]; cases c.catchRejects <;> simp
+      | some f =>
+        simp only
+        by_cases hf : (f == c.bRejectWhen) = true
+        · simp [hf]
+        · simp only [hf, Bool.false_eq_true, if_false]
+          exact basic_no_crash c hg fals l
+    · have ha' : a.active = false := by simpa using ha
+      simp only [hg, ha', Bool.not_false, Bool.and_true, if_true]
+      exact basic_no_crash c hg fals l
 
 /-- **accept_sound** (basic checker): `setRequirements` keeps every non-optional requirement and the loop
     checks every active one -/
 theorem basic_accept_sound (c : Cfg) (hc : c.WF = true) (icc : Bool) (isBlanket isInter : Nat → Bool)
-    (reqs : List Req) (fals : Nat → Bool) (ev : List (Nat × Bool))
+    (reqs : List Req) (fals : Nat → Option Bool) (ev : List (Nat × Bool))
     (h : basicLoop c fals (basicSelect c icc isBlanket isInter reqs) = (ev, .accept)) :
-    ∀ r ∈ reqs, r.active = true → r.optional = false → fals r.id = false := by
+    ∀ r ∈ reqs, r.active = true → r.optional = false → fals r.id = some false := by
   intro r hr hact hopt
-  obtain ⟨_, _, _, _, hg, hrw, _, hk, _⟩ := wf_parts c hc
+  obtain ⟨_, _, _, _, hg, hrw, _, hk, hct⟩ := wf_parts c hc
   have hsel : r ∈ basicSelect c icc isBlanket isInter reqs := by
     unfold basicSelect
     apply List.mem_filter.mpr
     refine ⟨hr, ?_⟩
     simp [hopt, hk]
-  have := basicLoop_accept c hg fals _ ev h r hsel hact
-  rw [hrw] at this
-  simpa using this
+  obtain ⟨f, hf, hne⟩ := basicLoop_accept c hg hct fals _ ev h r hsel hact
+  rw [hrw] at hne
+  rw [hf]; cases f <;> simp_all
 
-/-! ## the rejection loop, for every history -/
+/-! ## the rejection loop, for every checker and every history -/
 
-/-- **generate_sound**: whatever the checker's statistics were when generation started (every history of
-    earlier samples and scenes), whatever candidates are drawn and however long each check takes, the
-    candidate that `_generateInner` returns was actually sampled and falsifies no active non-optional
-    requirement. -/
-theorem generate_sound (c : Cfg) (hc : c.WF = true) (B : Nat) (reqs : List Req) :
-    ∀ (atts : List Attempt) (st : State) (k : Nat) (st' : State) (j : Nat),
-      generateInner c B reqs st atts k = (st', some j) →
-      ∃ a, atts[j - k]? = some a ∧ k ≤ j ∧ a.sampleRejected = false ∧
-        ∀ r ∈ reqs, r.active = true → r.optional = false → a.fals r.id = false
-  | [], st, k, st', j, h => by simp [generateInner] at h
+/-- the rejection loop over *any* checker whose "accept" guarantees `P`: whatever the checker's state was when
+    generation started, whatever candidates are drawn, the candidate returned was actually sampled and has `P` -/
+theorem generateWith_sound {σ : Type} (check : σ → Attempt → σ × Outcome) (P : Attempt → Prop)
+    (hcheck : ∀ st a st', check st a = (st', .accept) → P a) :
+    ∀ (atts : List Attempt) (st : σ) (k : Nat) (st' : σ) (j : Nat),
+      generateWith check st atts k = (st', some j) →
+      ∃ a, atts[j - k]? = some a ∧ k ≤ j ∧ a.sampleRejected = false ∧ P a
+  | [], st, k, st', j, h => by simp [generateWith] at h
   | a :: as, st, k, st', j, h => by
-    unfold generateInner at h
-    by_cases hs : a.sampleRejected = true
-    · simp only [hs, if_true] at h
-      obtain ⟨b, hb, hk, hrest⟩ := generate_sound c hc B reqs as st (k + 1) st' j h
+    have step : ∀ st1, generateWith check st1 as (k + 1) = (st', some j) →
+        ∃ b, (a :: as)[j - k]? = some b ∧ k ≤ j ∧ b.sampleRejected = false ∧ P b := by
+      intro st1 h1
+      obtain ⟨b, hb, hk, hrest⟩ := generateWith_sound check P hcheck as st1 (k + 1) st' j h1
       refine ⟨b, ?_, by omega, hrest⟩
       have : j - k = (j - (k + 1)) + 1 := by omega
       rw [this]; simpa using hb
+    unfold generateWith at h
+    by_cases hs : a.sampleRejected = true
+    · simp only [hs, if_true] at h
+      exact step st h
     · simp only [hs] at h
-      generalize hw : weightedCheck c B st reqs a.fals a.times = res at h
-      obtain ⟨st1, ev, out⟩ := res
-      have hout : weightedDecide c (st.key B) reqs a.fals = (ev, out) := by
-        have := weightedCheck_outcome c B st reqs a.fals a.times
-        rw [hw] at this; exact this.symm
+      generalize hw : check st a = res at h
+      obtain ⟨st1, out⟩ := res
       cases out with
       | accept =>
         simp only [Bool.false_eq_true, if_false, Prod.mk.injEq, Option.some.injEq] at h
         obtain ⟨_, hj⟩ := h
         subst hj
-        refine ⟨a, by simp, Nat.le_refl _, by simpa using hs, ?_⟩
-        exact weighted_accept_sound c hc _ reqs a.fals ev hout
-      | reject id =>
-        simp only [Bool.false_eq_true, if_false] at h
-        obtain ⟨b, hb, hk, hrest⟩ := generate_sound c hc B reqs as st1 (k + 1) st' j h
-        refine ⟨b, ?_, by omega, hrest⟩
-        have : j - k = (j - (k + 1)) + 1 := by omega
-        rw [this]; simpa using hb
+        exact ⟨a, by simp, Nat.le_refl _, by simpa using hs, hcheck st a st1 hw⟩
+      | reject id => simp only [Bool.false_eq_true, if_false] at h; exact step st1 h
+      | rejectExc id => simp only [Bool.false_eq_true, if_false] at h; exact step st1 h
       | crash => simp at h
 
-/-- every earlier candidate was refused for a reason: it was rejected during sampling or falsifies an
-    active requirement -/
-theorem generate_rejections_justified (c : Cfg) (hc : c.WF = true) (B : Nat) (reqs : List Req) :
-    ∀ (atts : List Attempt) (st : State) (k : Nat) (st' : State) (j : Nat),
-      generateInner c B reqs st atts k = (st', some j) →
-      ∀ i, i < j - k → ∃ a, atts[i]? = some a ∧
-        (a.sampleRejected = true ∨ ∃ r ∈ reqs, r.active = true ∧ a.fals r.id = true)
-  | [], st, k, st', j, h => by simp [generateInner] at h
+/-- …and every earlier candidate was refused by the checker or during sampling -/
+theorem generateWith_earlier {σ : Type} (check : σ → Attempt → σ × Outcome) (Q : Attempt → Prop)
+    (hcheck : ∀ st a st' id, (check st a = (st', .reject id) ∨ check st a = (st', .rejectExc id)) → Q a) :
+    ∀ (atts : List Attempt) (st : σ) (k : Nat) (st' : σ) (j : Nat),
+      generateWith check st atts k = (st', some j) →
+      ∀ i, i < j - k → ∃ a, atts[i]? = some a ∧ (a.sampleRejected = true ∨ Q a)
+  | [], st, k, st', j, h => by simp [generateWith] at h
   | a :: as, st, k, st', j, h => by
     intro i hi
-    unfold generateInner at h
+    unfold generateWith at h
     by_cases hs : a.sampleRejected = true
     · simp only [hs, if_true] at h
       cases i with
       | zero => exact ⟨a, by simp, Or.inl hs⟩
       | succ i =>
-        obtain ⟨b, hb, hrest⟩ := generate_rejections_justified c hc B reqs as st (k + 1) st' j h i (by omega)
+        obtain ⟨b, hb, hrest⟩ := generateWith_earlier check Q hcheck as st (k + 1) st' j h i (by omega)
         exact ⟨b, by simpa using hb, hrest⟩
     · simp only [hs] at h
-      generalize hw : weightedCheck c B st reqs a.fals a.times = res at h
-      obtain ⟨st1, ev, out⟩ := res
-      have hout : weightedDecide c (st.key B) reqs a.fals = (ev, out) := by
-        have := weightedCheck_outcome c B st reqs a.fals a.times
-        rw [hw] at this; exact this.symm
+      generalize hw : check st a = res at h
+      obtain ⟨st1, out⟩ := res
       cases out with
       | accept =>
         simp only [Bool.false_eq_true, if_false, Prod.mk.injEq, Option.some.injEq] at h
@@ -387,13 +469,90 @@ theorem generate_rejections_justified (c : Cfg) (hc : c.WF = true) (B : Nat) (re
       | reject id =>
         simp only [Bool.false_eq_true, if_false] at h
         cases i with
-        | zero =>
-          obtain ⟨r, hr, _, h2, h3⟩ := weighted_reject_sound c hc _ reqs a.fals ev id hout
-          exact ⟨a, by simp, Or.inr ⟨r, hr, h2, h3⟩⟩
+        | zero => exact ⟨a, by simp, Or.inr (hcheck st a st1 id (Or.inl hw))⟩
         | succ i =>
-          obtain ⟨b, hb, hrest⟩ := generate_rejections_justified c hc B reqs as st1 (k + 1) st' j h i (by omega)
+          obtain ⟨b, hb, hrest⟩ := generateWith_earlier check Q hcheck as st1 (k + 1) st' j h i (by omega)
+          exact ⟨b, by simpa using hb, hrest⟩
+      | rejectExc id =>
+        simp only [Bool.false_eq_true, if_false] at h
+        cases i with
+        | zero => exact ⟨a, by simp, Or.inr (hcheck st a st1 id (Or.inr hw))⟩
+        | succ i =>
+          obtain ⟨b, hb, hrest⟩ := generateWith_earlier check Q hcheck as st1 (k + 1) st' j h i (by omega)
           exact ⟨b, by simpa using hb, hrest⟩
       | crash => simp at h
+
+theorem weightedStep_decide (c : Cfg) (B : Nat) (reqs : List Req) (st st' : State) (a : Attempt) (out : Outcome)
+    (h : weightedStep c B reqs st a = (st', out)) :
+    ∃ ev, weightedDecide c (st.key B) reqs a.fals = (ev, out) := by
+  unfold weightedStep at h
+  have := weightedCheck_outcome c B st reqs a.fals a.times
+  generalize weightedCheck c B st reqs a.fals a.times = res at h this
+  obtain ⟨s1, ev, o⟩ := res
+  simp only [Prod.mk.injEq] at h
+  obtain ⟨_, ho⟩ := h
+  subst ho
+  exact ⟨ev, this.symm⟩
+
+/-- **generate_sound**: whatever the checker's statistics were when generation started (every history of
+    earlier samples and scenes), whatever candidates are drawn and however long each check takes, the
+    candidate that `_generateInner` returns was actually sampled and every active non-optional
+    requirement was evaluated on it and is not falsified. -/
+theorem generate_sound (c : Cfg) (hc : c.WF = true) (B : Nat) (reqs : List Req)
+    (atts : List Attempt) (st : State) (k : Nat) (st' : State) (j : Nat)
+    (h : generateInner c B reqs st atts k = (st', some j)) :
+    ∃ a, atts[j - k]? = some a ∧ k ≤ j ∧ a.sampleRejected = false ∧
+      ∀ r ∈ reqs, r.active = true → r.optional = false → a.fals r.id = some false := by
+  apply generateWith_sound (weightedStep c B reqs)
+    (fun a => ∀ r ∈ reqs, r.active = true → r.optional = false → a.fals r.id = some false) ?_ atts st k st' j h
+  intro s a s' hs
+  obtain ⟨ev, hd⟩ := weightedStep_decide c B reqs s s' a _ hs
+  exact weighted_accept_sound c hc _ reqs a.fals ev hd
+
+/-- every earlier candidate was refused for a reason: it was rejected during sampling, falsifies an
+    active requirement, or the evaluation of an active requirement raised RejectionException -/
+theorem generate_rejections_justified (c : Cfg) (hc : c.WF = true) (B : Nat) (reqs : List Req)
+    (atts : List Attempt) (st : State) (k : Nat) (st' : State) (j : Nat)
+    (h : generateInner c B reqs st atts k = (st', some j)) :
+    ∀ i, i < j - k → ∃ a, atts[i]? = some a ∧
+      (a.sampleRejected = true ∨ ∃ r ∈ reqs, r.active = true ∧ (a.fals r.id = some true ∨ a.fals r.id = none)) := by
+  apply generateWith_earlier (weightedStep c B reqs)
+    (fun a => ∃ r ∈ reqs, r.active = true ∧ (a.fals r.id = some true ∨ a.fals r.id = none)) ?_ atts st k st' j h
+  intro s a s' id hs
+  rcases hs with hs | hs
+  · obtain ⟨ev, hd⟩ := weightedStep_decide c B reqs s s' a _ hs
+    obtain ⟨r, hr, _, h2, h3⟩ := weighted_reject_sound c hc _ reqs a.fals ev id hd
+    exact ⟨r, hr, h2, Or.inl h3⟩
+  · obtain ⟨ev, hd⟩ := weightedStep_decide c B reqs s s' a _ hs
+    obtain ⟨r, hr, _, h2, h3⟩ := weighted_rejectExc_sound c hc _ reqs a.fals ev id hd
+    exact ⟨r, hr, h2, Or.inr h3⟩
+
+/-- **generate_sound** for a scenario whose checker was replaced by a `BasicChecker`
+    (`Scenario.setSampleChecker`) -/
+theorem generate_sound_basic (c : Cfg) (hc : c.WF = true) (icc : Bool) (isBlanket isInter : Nat → Bool)
+    (reqs : List Req) (atts : List Attempt) (j : Nat)
+    (h : generateInnerBasic c icc isBlanket isInter reqs atts = some j) :
+    ∃ a, atts[j]? = some a ∧ a.sampleRejected = false ∧
+      ∀ r ∈ reqs, r.active = true → r.optional = false → a.fals r.id = some false := by
+  unfold generateInnerBasic at h
+  generalize hg : generateWith (basicStep c (basicSelect c icc isBlanket isInter reqs)) () atts 0 = res at h
+  obtain ⟨u, o⟩ := res
+  simp only at h
+  subst h
+  have hchk : ∀ (s : Unit) (a : Attempt) (s' : Unit),
+      basicStep c (basicSelect c icc isBlanket isInter reqs) s a = (s', .accept) →
+      ∀ r ∈ reqs, r.active = true → r.optional = false → a.fals r.id = some false := by
+    intro s a s' hs
+    unfold basicStep at hs
+    generalize hb : basicLoop c a.fals (basicSelect c icc isBlanket isInter reqs) = res at hs
+    obtain ⟨ev, out⟩ := res
+    simp only [Prod.mk.injEq] at hs
+    obtain ⟨_, hs⟩ := hs
+    subst hs
+    exact basic_accept_sound c hc icc isBlanket isInter reqs a.fals ev hb
+  obtain ⟨a, ha, _, hs, hP⟩ := generateWith_sound (basicStep c (basicSelect c icc isBlanket isInter reqs))
+    (fun a => ∀ r ∈ reqs, r.active = true → r.optional = false → a.fals r.id = some false) hchk atts () 0 u j hg
+  exact ⟨a, by simpa using ha, hs, hP⟩
 
 theorem mem_setActive {isUser act : Nat → Bool} {reqs : List Req} {r : Req} (hr : r ∈ reqs) :
     (if isUser r.id then { r with active := act r.id } else r) ∈ setActive isUser act reqs := by
@@ -410,7 +569,7 @@ theorem generateBatch_sound (c : Cfg) (hc : c.WF = true) (B : Nat) (isUser : Nat
       ∃ act atts a, scenes[n]? = some (act, atts) ∧ atts[j]? = some a ∧ a.sampleRejected = false ∧
         ∀ r ∈ reqs, r.optional = false →
           ((isUser r.id = false ∧ r.active = true) ∨ (isUser r.id = true ∧ act r.id = true)) →
-          a.fals r.id = false
+          a.fals r.id = some false
   | [], st, n, j, h => by simp [generateBatch] at h
   | (act, atts) :: rest, st, n, j, h => by
     unfold generateBatch at h
@@ -459,19 +618,19 @@ def exReqs : List Req := [⟨0, true, true⟩, ⟨1, false, true⟩, ⟨2, false
 /-- a run in which the optional requirement 0 is sorted last and popped although the sample falsifies it,
     and the sample is accepted -/
 example : weightedDecide Scenic.Gen.checkerCfg
-      (fun r => if r.id = 0 then (none, 5) else (some (r.id : Rat), 0)) exReqs (fun i => i == 0 || i == 2)
+      (fun r => if r.id = 0 then (none, 5) else (some (r.id : Rat), 0)) exReqs (fun i => some (i == 0 || i == 2))
     = ([(1, false), (3, false)], .accept) := by decide +kernel
 
 /-- the same sample with the optional requirement sorted first is rejected by it -/
 example : weightedDecide Scenic.Gen.checkerCfg
-      (fun r => (some (r.id : Rat), 0)) exReqs (fun i => i == 0 || i == 2)
+      (fun r => (some (r.id : Rat), 0)) exReqs (fun i => some (i == 0 || i == 2))
     = ([(0, true)], .reject 0) := by decide +kernel
 
 /-- negation witness for a checker that pops *mandatory* trailing requirements: it accepts a sample
     falsifying requirement 3 -/
 theorem pop_mandatory_unsound :
     weightedDecide { Scenic.Gen.checkerCfg with wPopPred := some .notOptional }
-      (fun r => (some (r.id : Rat), 0)) exReqs (fun i => i == 3) = ([(0, false)], .accept) := by
+      (fun r => (some (r.id : Rat), 0)) exReqs (fun i => some (i == 3)) = ([(0, false)], .accept) := by
   decide +kernel
 
 end Scenic.C02
